@@ -96,8 +96,15 @@ CheckLookups(r) ==
        IN NeedD(q.found = e.found /\ (e.found => q.val = e.val), "C18", r.id,
                 "lookup differs", [tag |-> q.tag, found |-> q.found, val |-> q.val, expFound |-> e.found, expVal |-> e.val])
 
+\* group entries of which nothing, or not the first field, is populated: outside the domain of the content checks (what such a
+\* message "contains" is not settled by the properties), but C01 speaks of whichever fields are populated: the framing must be right
+CheckFrameOnly(r) ==
+  /\ Need(r.serOk, "C01", r.id, "serialization returned an error")
+  /\ r.serOk => Need(Framed(r.wire, r.m.tags), "C01", r.id, "not framed: BeginString/BodyLength/MsgType/CheckSum")
+
 CheckCase(r) ==
-  IF ~SerDomain(r.m) THEN SpecErr(r.id, "case outside the serialization domain")
+  IF r.frameOnly THEN CheckFrameOnly(r)
+  ELSE IF ~SerDomain(r.m) THEN SpecErr(r.id, "case outside the serialization domain")
   ELSE /\ CheckSer(r)
        /\ IF r.parsed /\ ~(WellFormedTemplate(IF r.sameTemplate THEN r.m ELSE r.target) /\ WellFormedPop(r.m))
           THEN SpecErr(r.id, "parse case outside the C02 domain")
